@@ -323,10 +323,8 @@ struct PathEntry {
 }
 
 fn gen_path_entry(rng: &mut Rng, files: &Files, name: &str, good: &str, bad: &[&str], optional: bool) -> PathEntry {
-    match rng.below(12) {
-        0 if optional => PathEntry { value: None, is_string: false, exists: false, content_ok: false },
-        1 if optional => PathEntry { value: None, is_string: false, exists: false, content_ok: false },
-        2 if optional => PathEntry { value: None, is_string: false, exists: false, content_ok: false },
+    match rng.below(24) {
+        7..=15 if optional => PathEntry { value: None, is_string: false, exists: false, content_ok: false },
         0 => PathEntry { value: None, is_string: false, exists: false, content_ok: false },
         3 => PathEntry {
             value: Some(match rng.below(4) {
@@ -356,7 +354,13 @@ const PROBE_Q: (f64, f64) = (0.0, 0.001);
 pub fn vertex_builder_case(ctx: &mut Ctx, idx: usize, files: &Files) {
     let mut rng = Rng::for_case(ctx.seed, 16, idx as u64);
     let good = "vertex_id,x,y\n5,0,0\n";
-    let bad = ["vertex_id,x,y\n5,zero,0\n", "id,lon,lat\n5,0,0\n", "vertex_id,x,y\n-1,0,0\n", "vertex_id,x,y\n5,0\n"];
+    let bad = [
+        // a NaN coordinate used to make RTree::bulk_load panic inside the builder
+        "vertex_id,x,y\n5,nan,0\n6,0,0\n7,1,1\n8,2,2\n9,3,3\n10,4,4\n11,5,5\n",
+        "vertex_id,x,y\n5,0,NaN\n",
+        "vertex_id,x,y\n5,inf,0\n6,0,0\n",
+        "vertex_id,x,y\n5,zero,0\n", "id,lon,lat\n5,0,0\n", "vertex_id,x,y\n-1,0,0\n", "vertex_id,x,y\n5,0\n"
+    ];
     let path = gen_path_entry(&mut rng, files, "b_vertices.csv", good, &bad, false);
     let gc = haversine::coord_distance_meters(&to_f32(PROBE_Q), &to_f32((0.0, 0.0))).unwrap().as_f64();
     let tol = gen_tol_entry(&mut rng, gc);
@@ -459,7 +463,13 @@ pub fn edge_builder_case(ctx: &mut Ctx, idx: usize, files: &Files) {
     for k in 1..n_geo {
         good_geo.push_str(&format!("LINESTRING ({} 1, {} 1.01)\n", k, k));
     }
-    let bad_geo = ["LINESTRING (0 0, 1\n", "POINT (0 0)\n", "not wkt\n", "LINESTRING (a b, c d)\n"];
+    // an empty linestring used to be loaded and then made every query panic in distance_2
+    let geo_empty = rng.chance(1, 8);
+    if geo_empty {
+        good_geo.push_str("LINESTRING EMPTY\n");
+    }
+    let n_geo = if geo_empty { n_geo + 1 } else { n_geo };
+    let bad_geo = ["LINESTRING (nan 0, 1 1)\n", "LINESTRING (0 0, 1\n", "POINT (0 0)\n", "not wkt\n", "LINESTRING (a b, c d)\n"];
     let geo = gen_path_entry(&mut rng, files, "b_geometries.txt", &good_geo, &bad_geo, false);
     // road classes: right length, wrong length, unreadable
     let rc_len = if rng.chance(1, 4) { n_geo + 1 + rng.below(2) } else { n_geo };
@@ -529,7 +539,7 @@ pub fn edge_builder_case(ctx: &mut Ctx, idx: usize, files: &Files) {
         }
     };
     // candidate table of the probe query, from an identical tree (only when the geometry file is good)
-    let scan = if geo.exists && geo.content_ok {
+    let scan = if geo.exists && geo.content_ok && !geo_empty {
         match EdgeRtreeInputPlugin::new(None, None, format!("{}/b_geometries.txt", files.dir), None, None, serde_json::from_value(json!({"mapping": {}})).unwrap()) {
             Ok(p) => edge_scan(ctx, idx, &p, n_geo, to_f32(PROBE_Q), &None).ok(),
             Err(_) => None,
@@ -545,11 +555,12 @@ pub fn edge_builder_case(ctx: &mut Ctx, idx: usize, files: &Files) {
         }
     };
     let case = format!(
-        "b e {} {} {} {} {} {}",
+        "b e {} {} {} {} {} {} {}",
         enc(&cfg),
         file_tok(&rc, rc_len),
         if vr.exists && vr.content_ok { 1 } else { 0 },
         file_tok(&geo, n_geo),
+        if geo_empty { 1 } else { 0 },
         enc(&q0),
         ecands_tokens(&scan)
     );
@@ -565,7 +576,11 @@ pub fn edge_builder_case(ctx: &mut Ctx, idx: usize, files: &Files) {
         None => optional,
         Some(_) => p.is_string && p.exists && p.content_ok,
     };
+    if geo_empty && geo.exists && geo.content_ok {
+        ctx.count("builder_edge_geometry_with_empty_linestring");
+    }
     let valid = file_valid(&geo, false)
+        && !geo_empty
         && file_valid(&rc, true)
         && file_valid(&vr, true)
         && (rc.value.is_none() || rc_len == n_geo)
